@@ -45,6 +45,19 @@ def table():
             '<output id="out1"/>%s</decisionTable></decision>') % rs
 
 
+def multi_table(name, policy, outs, rules):
+    """a decision table over input a with several output clauses that have output values (prioritised hit policies)"""
+    os_ = ''.join('<output id="%s_o%d" name="%s" typeRef="string"><outputValues><text>%s</text></outputValues></output>' % (name, i, n, esc(vals))
+                  for i, (n, vals) in enumerate(outs))
+    rs = ''
+    for i, (cond, vals) in enumerate(rules):
+        rs += '<rule id="%s_r%d"><inputEntry id="%s_r%di"><text>%s</text></inputEntry>%s</rule>' % (
+            name, i, name, i, esc(cond), ''.join('<outputEntry id="%s_r%do%d"><text>%s</text></outputEntry>' % (name, i, j, esc(v)) for j, v in enumerate(vals)))
+    return ('<decision name="%s" id="d_%s"><variable name="%s"/><informationRequirement><requiredInput href="#i_a"/></informationRequirement>'
+            '<decisionTable hitPolicy="%s" outputLabel="%s"><input id="%s_in"><inputExpression typeRef="number"><text>a</text></inputExpression></input>'
+            '%s%s</decisionTable></decision>') % (name, name, name, policy, name, name, os_, rs)
+
+
 def stress_model():
     parts = [
         '<inputData name="a" id="i_a"><variable name="a" typeRef="number"/></inputData>',
@@ -58,6 +71,20 @@ def stress_model():
                    'string(date and time("2021-01-31T10:00:00@Europe/Warsaw")) + string(time("10:00:00+02:00"))', inputs=['d']),
         lit('rex', 'replace(s, "[aeiou]+", "#") + "|" + string(matches(s, "^[a-z]+[0-9]*$")) + "|" + string(count(split(s, "[0-9]"))) + "|" + upper case(s)', inputs=['s']),
         table(),
+        # truncation of non-integers (decimal() with a fractional scale, time() with fractional seconds): decNumber's ToIntegralValue
+        # rewrites ctx->round while it works; next to inexact quotients whose last digit shows the rounding mode in force
+        lit('trn', '[decimal(a / 7, 2.5), decimal(a + 0.25, 1.5), string(time(10, 20, 30.123456)), string(time(23, 59, 59.999999999)), '
+                   'sum(for i in 1..10 return decimal((a + i) / 7, 2.5 + i / 3)), 2 / 3, 1 / 7, a / 9, sum(for i in 1..10 return (a + i) / (i + 2))]', inputs=['a']),
+        # prioritised tables with 2 and 3 output clauses; the order of the matching rules is decided by a clause other than the first
+        multi_table('pri', 'PRIORITY', [('o1', '"A", "B"'), ('o2', '"x", "y", "z"')],
+                    [('>= 0', ['"B"', '"x"']), ('>= 0', ['"A"', '"z"']), ('>= 5', ['"A"', '"y"']), ('>= 10', ['"A"', '"x"']), ('< 0', ['"B"', '"z"']), ('< 1', ['"B"', '"y"'])]),
+        multi_table('ord', 'OUTPUT ORDER', [('p', '"hi", "lo"'), ('q', '"1", "2", "3"'), ('r', '"u", "v"')],
+                    [('>= 0', ['"lo"', '"1"', '"u"']), ('>= 0', ['"hi"', '"3"', '"v"']), ('>= 5', ['"hi"', '"1"', '"v"']), ('>= 5', ['"hi"', '"1"', '"u"']),
+                     ('>= 10', ['"hi"', '"2"', '"u"']), ('< 3', ['"lo"', '"1"', '"v"']), ('-', ['"lo"', '"3"', '"u"'])]),
+        # results that depend on the rounding field of the decimal context: inexact quotients next to floor / ceiling / decimal,
+        # which make the C library rewrite ctx->round for the duration of the call
+        lit('rnd', '[2 / 3, a / 7, (a + 0.5) / 3, 1 / 9 + a / 11, floor(a / 7), ceiling(a / 7), decimal(a / 7, 3), floor(-a / 3), '
+                   'sum(for i in 1..12 return (a + i) / (i + 6)), sum(for i in 1..12 return floor((a + i) / 3) + ceiling((a + i) / 7))]', inputs=['a']),
         lit('top', '{n: num, t: tbl, r: rex, f: fib(modulo(abs(floor(a)), 11))}', decisions=['num', 'tbl', 'rex'], knowledge=['fib'], inputs=['a']),
         '<decisionService name="svc" id="s_svc"><variable name="svc"/><outputDecision href="#d_top"/><encapsulatedDecision href="#d_num"/>'
         '<encapsulatedDecision href="#d_tbl"/><encapsulatedDecision href="#d_rex"/><inputData href="#i_a"/><inputData href="#i_s"/></decisionService>',
@@ -73,7 +100,7 @@ def gen_calls(rng, n):
         a = rng.choice([0, 1, 5, 6.5, 7, 9.99, 10, 25, 50, 99, 100, 1001, -3, -0.5, 123456.789]) if rng.random() < 0.7 else round(rng.uniform(-50, 1500), 3)
         s = rng.choice(words)
         d = rng.choice(dates)
-        inv = rng.choice(['num', 'tmp', 'rex', 'tbl', 'top', 'top', 'svc', 'fib'])
+        inv = rng.choice(['num', 'tmp', 'rex', 'tbl', 'top', 'top', 'svc', 'fib', 'rnd', 'rnd', 'trn', 'trn', 'pri', 'pri', 'ord', 'ord'])
         if inv == 'fib':
             ctx = '{n: %d}' % rng.randint(0, 13)
         else:
@@ -90,7 +117,7 @@ def regenerate_sites(ctx):
         ok = True
         if kind.startswith('SLock true') and evalp:
             ok = False
-        elif kind in ('SStatic true', 'SStaticMut', 'SThreadLocal', 'SUnsafeSendSync', 'SCtxUse false', 'SFfiCtx false', 'SMissingFile'):
+        elif kind in ('SStatic true', 'SStaticMut', 'SThreadLocal', 'SUnsafeSendSync', 'SCtxUse false', 'SFfiCtx false', 'SMissingFile', 'SField true'):
             ok = False
         if not ok:
             bad.append('%s:%d %s (fn %s)' % (rel, line, kind, fn))
@@ -100,8 +127,8 @@ def regenerate_sites(ctx):
     return bad
 
 
-def run_stress(ctx, exe, xml, calls, threads, per_thread, seed, timeout_s):
-    req = {'xml': xml, 'calls': calls, 'threads': threads, 'per_thread': per_thread, 'seed': seed, 'timeout_s': timeout_s}
+def run_stress(ctx, exe, xml, calls, threads, per_thread, seed, timeout_s, trials=1):
+    req = {'xml': xml, 'calls': calls, 'threads': threads, 'per_thread': per_thread, 'seed': seed, 'timeout_s': timeout_s, 'trials': trials}
     t0 = time.time()
     try:
         p = subprocess.run([exe, 'threads'], input=json.dumps(req) + '\n', stdout=subprocess.PIPE, stderr=subprocess.PIPE, text=True, timeout=timeout_s + 60)
@@ -113,16 +140,77 @@ def run_stress(ctx, exe, xml, calls, threads, per_thread, seed, timeout_s):
     return json.loads(lines[0]), time.time() - t0
 
 
+SITES_HEADER = 'From Coq Require Import List NArith Bool.\nFrom DV Require Import C20.Conc C20.Sites Gen.SyncSites.\nImport ListNotations.\n'
+NESTED = [['top', '{a: 7, s: "gamma", d: date("1999-12-31")}'], ['svc', '{a: 25, s: "alpha", d: date("2021-01-31")}'],
+          ['top', '{a: 1001, s: "beta", d: date("2024-06-15")}'], ['fib', '{n: 9}'], ['tbl', '{a: 6.5, s: "alpha"}']]
+
+
+def model_search(ctx, bad_sites):
+    """asks the locking model (on the inventory just regenerated) for a stuck schedule; called while the C20 generation lock is held"""
+    writes = [b for b in bad_sites if ' SLock true ' in b]
+    if not writes:
+        return None
+    lids = sorted(set(int(b.split(' SLock true ')[1].split()[0]) for b in writes))
+    try:
+        res = ctx.run_model(SITES_HEADER, ['(find_stuck call_path, %s)' % ', '.join('find_stuck2 call_path [(true, %d)]' % l for l in lids)], tag='stuck')[0]
+    except Exception as e:       # the inventory does not compile: keep going with the plain stress
+        ctx.notes.append('model search for a stuck schedule not possible: %s' % str(e)[:200])
+        return None
+    return writes, res
+
+
+def directed_search(ctx, exe, xml, found):
+    """When the inventory shows a write acquisition in the evaluation phase, the locking model is asked for a stuck schedule of
+    the regenerated call path (the two witness shapes of C20_writer_deadlocks) and the real evaluator is driven accordingly:
+    a single nested evaluation for a self-deadlock, nested readers against concurrent calls for a waiting writer."""
+    if not found:
+        return
+    writes, res = found
+    res = list(res) if isinstance(res, tuple) else [res]
+    solo = res[0]
+    pair = [r for r in res[1:] if getattr(r, 'name', '') == 'Some']
+    ctx.cov['model_stuck_schedule'] = {'solo_or_same_path': str(solo)[:300], 'against_a_writer_call': [str(r)[:300] for r in res[1:]]}
+    if getattr(solo, 'name', '') == 'Some' and set(solo.args[0]) == {0}:
+        # witness 1: one thread re-enters a lock it holds for writing
+        r, wall = run_stress(ctx, exe, xml, NESTED, 1, 5, ctx.seed, timeout_s=8)
+        ctx.evaluations += 1
+        if r.get('deadlock'):
+            h = r.get('hanging_call', {})
+            ctx.violation('a single thread evaluating %s with input %s never returns (watchdog 8 s): the evaluation path takes a write lock (%s) and acquires the same lock '
+                          'again in the nested evaluation; the locking model is stuck after the schedule %s' % (h.get('invocable'), h.get('input'), '; '.join(writes)[:300], solo.args[0]),
+                          {'threads': 1, 'per_thread': 5, 'seed': ctx.seed, 'calls': NESTED, 'model_schedule': solo.args[0], 'sites': writes}, impl=r)
+        return
+    if getattr(solo, 'name', '') == 'Some' or pair:
+        sched = solo.args[0] if getattr(solo, 'name', '') == 'Some' else pair[0].args[0]
+        # witness 2: nested readers against a waiting writer; hammer the nested invocables from many threads
+        for k in range(ctx.pick(6, 60)):
+            r, wall = run_stress(ctx, exe, xml, NESTED, 16, 1500, ctx.seed * 77 + k, timeout_s=20)
+            ctx.evaluations += 1
+            if r.get('deadlock'):
+                ctx.violation('16 threads evaluating nested decisions on one evaluator stopped making progress (%s of 16 finished, watchdog 20 s): a write acquisition (%s) '
+                              'waits between two nested read acquisitions; model schedule %s' % (r.get('finished_threads'), '; '.join(writes)[:300], sched),
+                              {'threads': 16, 'per_thread': 1500, 'seed': ctx.seed * 77 + k, 'calls': NESTED, 'model_schedule': sched, 'sites': writes}, impl=r)
+                return
+        ctx.notes.append('the model has a stuck schedule %s but %d directed runs of the real evaluator did not hang' % (sched, ctx.pick(6, 60)))
+    else:
+        ctx.notes.append('write acquisition(s) %s: the locking model finds no stuck schedule for the regenerated call path (the acquisition serialises calls; '
+                         'the locked registry is not acquired again while it is held)' % '; '.join(writes)[:300])
+
+
 def run(ctx):
     bad_sites = []
 
     def gen():
         bad_sites.extend(regenerate_sites(ctx))
-    ctx.proof_gate(gen_cb=gen)
+    # coq/Gen is shared by all runs (also runs against other checkouts): generation, build and model query happen under one lock
+    with core.Lock('c20-gen'):
+        ctx.proof_gate(gen_cb=gen)
+        found = model_search(ctx, bad_sites)
     if bad_sites:
         ctx.broken.append('site inventory: the evaluation path no longer meets the hypotheses of the locking/isolation theorems: ' + '; '.join(bad_sites[:6]))
     exe = ctx.build_harness()
     xml = stress_model()
+    directed_search(ctx, exe, xml, found)
     total_calls = 0
     runs = []
     budget = ctx.pick(28, 540)
@@ -132,15 +220,16 @@ def run(ctx):
     for rep in range(ctx.pick(3, 40)):
         for threads in (2, 3, 4, 8, 16):
             seeds += 1
-            plans.append((threads, ctx.pick(1600, 4000) // (1 if threads <= 4 else 2), ctx.seed * 1000 + seeds))
+            plans.append((threads, ctx.pick(120, 300) // (1 if threads <= 4 else 2), ctx.seed * 1000 + seeds))
     t_start = time.time()
     for threads, per_thread, seed in plans:
         if time.time() - t_start > budget:
             break
         calls = gen_calls(ctx.rng, 60)
-        res, wall = run_stress(ctx, exe, xml, calls, threads, per_thread, seed, timeout_s=ctx.pick(40, 120))
+        trials = ctx.pick(14, 40)
+        res, wall = run_stress(ctx, exe, xml, calls, threads, per_thread, seed, timeout_s=ctx.pick(40, 120), trials=trials)
         ctx.evaluations += 1
-        case = {'threads': threads, 'per_thread': per_thread, 'seed': seed, 'calls': calls}
+        case = {'threads': threads, 'per_thread': per_thread, 'trials': trials, 'seed': seed, 'calls': calls}
         if 'err' in res or 'crash' in res:
             ctx.violation('the stress run could not be performed or the process died: %s' % json.dumps(res)[:300], case, impl=res)
             break
@@ -150,17 +239,18 @@ def run(ctx):
         if res.get('deadlock'):
             ctx.violation('%d threads sharing one evaluator did not finish within the watchdog limit (%d of %d threads finished, %d calls done): deadlock'
                           % (threads, res.get('finished_threads', 0), threads, res.get('calls', 0)), case, impl=res)
-            continue
+            break
         if res.get('mismatches'):
             m = res['mismatches'][0]
-            ctx.violation('concurrent evaluation of %s with input %s returned %s, the same call made alone returns %s (thread %s of %d)'
-                          % (m['invocable'], m['input'], str(m['got'])[:200], str(m['sequential'])[:200], m['thread'], threads),
-                          {'threads': threads, 'per_thread': per_thread, 'seed': seed, 'calls': calls, 'first_mismatch': m}, impl=res['mismatches'][:3])
+            ctx.violation('concurrent evaluation of %s with input %s returned %s, the same call made alone returns %s (thread %s of %d, call number %s of trial %s on a fresh evaluator)'
+                          % (m['invocable'], m['input'], str(m['got'])[:200], str(m['sequential'])[:200], m['thread'], threads, m.get('call_number'), m.get('trial')),
+                          {'threads': threads, 'per_thread': per_thread, 'trials': trials, 'seed': seed, 'calls': calls, 'first_mismatch': m}, impl=res['mismatches'][:3])
             continue
         if not res.get('final_ok'):
             m = (res.get('final_mismatches') or [{}])[0]
-            ctx.violation('after the concurrent phase a single-threaded evaluation of %s %s returns %s instead of %s (poisoned lock / damaged shared state)'
-                          % (m.get('invocable'), m.get('input'), str(m.get('got'))[:200], str(m.get('sequential'))[:200]), case, impl=res)
+            ctx.violation('after the concurrent phase (trial %s, a fresh evaluator raced by %d threads) a single-threaded evaluation of %s %s on that evaluator returns %s instead of %s '
+                          '(state left behind by the concurrent calls / poisoned lock)'
+                          % (m.get('trial'), threads, m.get('invocable'), m.get('input'), str(m.get('got'))[:200], str(m.get('sequential'))[:200]), case, impl=res)
             continue
         if res.get('null_results', 0) > len(calls) // 3:
             ctx.corr_broken('stress model mostly evaluates to null (the run would compare nothing)', {'threads': threads}, res.get('null_results'), 'few nulls')
@@ -172,8 +262,9 @@ def run(ctx):
     return ctx.finish(
         rule='stress runs of one Arc<ModelEvaluator> (numeric: for/sum/power/sqrt/exp/ln; temporal: date and duration arithmetic; regular expressions: replace/'
              'matches/split; a COLLECT SUM decision table; decision -> required decisions -> business knowledge model (recursive) and a decision service) shared by '
-             '2, 3, 4, 8, 16 threads; per run 60 generated (invocable, input) calls, call order / yields / barrier period from the seed; every result compared with the '
-             'sequential result; non-trivial = run with >= 20 distinct results',
+             '2, 3, 4, 8, 16 threads; per run 60 generated (invocable, input) calls and 14 trials, each on a FRESH evaluator released from a barrier (all threads make the same call first: cold start), '
+             'call order / yields / barrier period from the seed; every result compared with the result of a reference evaluator used by one thread only; after each trial every call is '
+             'repeated alone on the raced evaluator; non-trivial = run with >= 20 distinct results',
         extra_cov={'exhaustive': False, 'stress_runs': runs, 'total_concurrent_calls': total_calls},
         assumptions=['the schedules of the real program are explored by repeated randomised runs, not enumerated (level: partial)',
                      'std::sync::RwLock is modelled in its strictest form (a waiting writer blocks new readers)'],
@@ -192,7 +283,7 @@ def replay(ctx, path):
     exe = ctx.build_harness()
     worst = None
     for attempt in range(5):
-        res, wall = run_stress(ctx, exe, stress_model(), case['calls'], case['threads'], case['per_thread'], case['seed'] + attempt, 60)
+        res, wall = run_stress(ctx, exe, stress_model(), case['calls'], case['threads'], case['per_thread'], case['seed'] + attempt, 60, trials=case.get('trials', 1))
         print('attempt %d: calls %s deadlock %s mismatches %d final_ok %s (%.1fs)' % (attempt, res.get('calls'), res.get('deadlock'), len(res.get('mismatches', [])), res.get('final_ok'), wall))
         if res.get('deadlock') or res.get('mismatches') or res.get('final_ok') is False:
             worst = res
